@@ -465,9 +465,12 @@ def r7_gram(ctx):
         ctx.decide(ok, "C17-R7", tf, UC, "lengths_and_angles_to_tilt_factors", "%s equals the corresponding box-vector component" % nm, "",
                    "tilt factor %s = %r differs from the component %r of the box vectors" % (nm, pt.reduce(got), ps.reduce(w)))
     wb = ctx.py.func(LMP, "LAMMPSTrajectoryFile.write_box")
-    tri = [n for n in walk_no_nested(wb) if isinstance(n, ast.If)]
-    body = tri[0].orelse if tri else []
-    asg = [s_ for s_ in body if isinstance(s_, ast.Assign)]
+    asg = []
+    for n in walk_no_nested(wb):
+        if isinstance(n, ast.If):
+            for blk in (n.body, n.orelse):
+                if any(isinstance(s_, ast.Assign) and dotted(s_.targets[0]) == "lx" for s_ in blk):
+                    asg = [s_ for s_ in blk if isinstance(s_, ast.Assign)]
     try:
         pw = PySym({"lengths": Vec([sym("a_length"), sym("b_length"), sym("c_length")]), "angles": Vec([sym("alpha"), sym("beta"), sym("gamma")])})
         keep = {"a", "b", "c", "alpha", "beta", "gamma", "lx", "ly", "lz", "xy", "xz", "yz"}
@@ -491,6 +494,9 @@ def r7_gram(ctx):
         return
     # feed the writer's values (in the writer's symbol table) into the reader's formulas
     pw.positive = {"a_length", "b_length", "c_length"}
+    if any(nm not in pw.env for nm in names):
+        ctx.undecided("C17-R7", wb, LMP, "LAMMPSTrajectoryFile.write_box", "tilt factors", "assignments to %s not found in write_box" % [nm for nm in names if nm not in pw.env])
+        return
     env2 = {nm: pw.env[nm] for nm in names}
     saved = dict(pw.env)
     pw.env = env2
